@@ -1081,6 +1081,28 @@ def rule_tokchange_args(prog):
     def has_old_ref(e):
         return any(n.get("k") == "MethodCall" and n["m"] == "get_old_reference" for n in hir.nodes(e))
 
+    def is_length(e, depth=0):
+        """a number of tokens (literal, `.len()` / `.count()`, min/max of such, or a local function that returns one): adding it to a
+        position does not change the frame of the position"""
+        e = hir.strip_ref(e)
+        if depth > 3:
+            return False
+        if e.get("k") == "Lit":
+            return True
+        if e.get("k") == "MethodCall":
+            if e["m"] in ("len", "count", "input_len"):
+                return True
+            if e["m"] in ("min", "max") and e["args"]:
+                return is_length(e["recv"], depth + 1) and is_length(e["args"][0], depth + 1)
+            return False
+        if e.get("k") == "Call":
+            hb = hir.local_callee_body(prog, e)
+            if hb is not None and hb["_crate"] is c:
+                blk = hir.strip(hb["body"])
+                tail = blk["b"].get("expr") if blk.get("k") == "BlockExpr" else None
+                return tail is not None and is_length(tail, depth + 1)
+        return False
+
     def old_abs(e, body, dmap, pmap, depth=0):
         """True / False / ('param', index)"""
         e = hir.strip_ref(e)
@@ -1106,9 +1128,9 @@ def rule_tokchange_args(prog):
             if has_old_ref(e):
                 return True
             l, r = old_abs(e["l"], body, dmap, pmap, depth + 1), old_abs(e["r"], body, dmap, pmap, depth + 1)
-            if hir.lit_value(e["r"]) is not None:
+            if hir.lit_value(e["r"]) is not None or is_length(e["r"]):
                 return l
-            if hir.lit_value(e["l"]) is not None:
+            if hir.lit_value(e["l"]) is not None or is_length(e["l"]):
                 return r
             return False
         if k == "Field" and e["name"] in ("start", "end"):
@@ -1406,17 +1428,40 @@ def rule_reuse(prog):
         if alts:
             max_depth = max(max_depth, depth(alts[0], (sb["p"],)))
     window = None
+    comment_blind = None     # does the window extend over the comments in front of the tokens that are looked at?
     for b in scope:
         for st in hir.nodes(b["body"], "Struct"):
             if (st.get("adt") or "").startswith("core::ops::range::Range"):
                 f_ = {x["name"]: x["e"] for x in st["fields"]}
                 en = hir.strip(f_.get("end", {}))
-                if en.get("k") == "Binary" and en["op"] == "+" and hir.lit_value(hir.strip(en["r"])) is not None and \
-                        any(x.get("k") == "Field" and x["name"] == "end" for x in hir.nodes(en["l"])):
+                if not (en.get("k") == "Binary" and en["op"] == "+" and
+                        any(x.get("k") == "Field" and x["name"] == "end" for x in hir.nodes(en["l"]))):
+                    continue
+                rhs = hir.strip(en["r"])
+                if hir.lit_value(rhs) is not None:
                     try:
-                        window = int(hir.lit_value(hir.strip(en["r"])))
+                        window = int(hir.lit_value(rhs))
+                        comment_blind = False
                     except (TypeError, ValueError):
                         pass
+                elif rhs.get("k") == "Call":
+                    # `end + look_ahead_len(..)`: a helper that counts tokens of the stream; its guaranteed minimum is the window
+                    hb = hir.local_callee_body(prog, rhs)
+                    if hb is not None:
+                        ks = []
+                        for x in hir.nodes(hb["body"]):
+                            if x.get("k") == "MethodCall" and x["m"] == "max" and x["args"] and hir.lit_value(hir.strip(x["args"][0])) is not None:
+                                ks.append(hir.lit_value(hir.strip(x["args"][0])))
+                            if x.get("k") == "Binary" and x["op"] in ("<", "<=", "==", ">=", ">") and hir.lit_value(hir.strip(x["r"])) is not None:
+                                ks.append(hir.lit_value(hir.strip(x["r"])))
+                        try:
+                            window = max(int(k_) for k_ in ks) if ks else None
+                        except (TypeError, ValueError):
+                            window = None
+                        comment_blind = any(
+                            "spl_frontend::tokens::TokenType::Comment" in hir.pat_variants_all(pt)
+                            for x in hir.nodes(hb["body"])
+                            for pt in ([a_["pat"] for a_ in x["arms"]] if x.get("k") == "Match" else [x["pat"]] if x.get("k") == "LetExpr" else []))
     if max_depth and window is not None:
         out.add("parser::utility::affected", "the affected range reaches as far behind a node as the parsers' look-ahead", window >= max_depth,
                 c.loc(aff["sp"]), "the synchronisation sets inspect up to %d tokens behind a node (`ident :=`), a node counts as affected only "
@@ -1425,6 +1470,11 @@ def rule_reuse(prog):
     else:
         out.add("parser::utility::affected", "the affected range reaches as far behind a node as the parsers' look-ahead", None, c.loc(aff["sp"]),
                 "look-ahead depth %s, window %s" % (max_depth, window), ("window",))
+    # the token parsers skip comments: the k-th token a parser looks at behind a node is the k-th token *that is no comment*
+    out.add("parser::utility::affected", "comments do not count for the tokens a parser looks at behind a node", comment_blind, c.loc(aff["sp"]),
+            "the affected range ends a fixed number of tokens behind the node, comments included, but every token parser skips the comments "
+            "in front of its token: with `f(1 // c⏎ a := 2;` the decisive `:=` is the third token behind the argument and deleting it keeps "
+            "the old argument", ("window",))
     # ---- (alt): an alternative that is handed the old node must be able to report `Affected` to the caller; a catch-all recovery
     # alternative behind it in the same alt(..) turns that report into an (empty) error node
     rec_fns = set(rb["p"] for rb, _, _ in recovery_sites(prog))
